@@ -266,7 +266,7 @@ CLS_FDRIVER = """
       g = c%get_tint(); call mget_i("tint", c, g)
       g = d%get_tint(); call mget_i("tint", d, g)
     end block
-  end block
+@BYVALUE@  end block
 """
 
 def _fcall(inv, ret, name, target, stmt):
@@ -275,6 +275,21 @@ def _fcall(inv, ret, name, target, stmt):
             '    call vt_begin("CallerReturn"//C_NULL_CHAR, "%s"//C_NULL_CHAR); call vt_target("%s"//C_NULL_CHAR)\n'
             '    %scall vt_end()\n') % (name, target, inv, stmt, name, target, ret)
 
+
+# objects returned by value (function results of type(cls)): the state of the new object, then the object in use
+BYVALUE_FDRIVER = ("    block\n      type(cls) :: e\n      integer(C_INT) :: g\n" +
+    _fcall("call vt_obj(b%get_instance()); ", "call vt_int(int(e%get_value(), C_LONG)); ", "dup", "ns1::Cls::dup()", "e = b%dup()") +
+    _fcall("call vt_obj(e%get_instance()); ", "call vt_int(int(g, C_LONG)); ", "get", "ns1::Cls::get()", "g = e%get()") +
+    _fcall("call vt_obj(e%get_instance()); call vt_int(-40_C_LONG); ", "", "set", "ns1::Cls::set(int)", "call e%set(-40_C_INT)") +
+    _fcall("call vt_obj(b%get_instance()); ", "call vt_int(int(g, C_LONG)); ", "get", "ns1::Cls::get()", "g = b%get()") +
+    _fcall("call vt_obj(e%get_instance()); ", "", "dtor", "ns1::Cls::~Cls()", "call e%dtor()") +
+    _fcall("call vt_obj(c%get_instance()); ", "call vt_int(int(e%get_value(), C_LONG)); ", "cdup", "ns1::Cls::cdup()", "e = c%cdup()") +
+    _fcall("call vt_obj(e%get_instance()); ", "", "dtor", "ns1::Cls::~Cls()", "call e%dtor()") +
+    _fcall("call vt_int(64_C_LONG); ", "call vt_int(int(e%get_value(), C_LONG)); ", "fresh", "ns1::fresh(int)", "e = fresh(64_C_INT)") +
+    _fcall("call vt_obj(e%get_instance()); ", "call vt_int(int(g, C_LONG)); ", "get", "ns1::Cls::get()", "g = e%get()") +
+    _fcall("call vt_obj(e%get_instance()); ", "", "dtor", "ns1::Cls::~Cls()", "call e%dtor()") +
+    "    end block\n")
+CLS_FDRIVER = CLS_FDRIVER.replace("@BYVALUE@", BYVALUE_FDRIVER)
 
 # a derived object through its own type-bound procedures and the ones it inherits (EXTENDS)
 DERIVED_FDRIVER = ("  block\n    type(derived) :: e\n    integer(C_INT) :: rv, g\n" +
